@@ -149,6 +149,7 @@ type scenario struct {
 	silentAfter    bool       // after the last injected chunk the broker goes silent (no EOF)
 	inject         [][]byte   // broker packets to deliver next, before anything else
 	connacks       [][]byte   // scripted answers to the next CONNECTs, before any random choice
+	peerCloses     bool       // the next scripted wClosed is the peer closing its end: our end stays open, reads see EOF
 }
 
 type seqOpts struct {
@@ -201,6 +202,10 @@ func (sc *scenario) onWrite(c *simConn, p []byte) writeAns {
 		}
 		if a.kind == wTimeout && !c.armedW {
 			a.kind = wHard
+		}
+		if a.kind == wClosed && sc.peerCloses {
+			sc.peerCloses = false
+			c.peerGone = true // the closed-connection error of a pipe whose other end was closed
 		}
 	} else if !sc.noFaults && sc.r.intn(1000) < sc.opts.faultRate {
 		// a failing Write accepts less than everything
